@@ -32,7 +32,7 @@ PROP = "C11"
 DRIVER_MODULES = ["PsutilModel.Model.C11Gen", "PsutilModel.Spec.C11"]
 NEEDS_EXT = True
 TRUSTED = [
-    "C11: socket.inet_ntop's text formatting (libc) — the model stops at the 4/16 packed bytes handed to it; the harness maps the returned text back with socket.inet_pton",
+    "C11: socket.inet_ntop's text formatting (libc) — the model stops at the 4/16 packed bytes handed to it; the harness maps the returned text back with socket.inet_pton and requires the text to be exactly libc's inet_ntop spelling of those bytes (a different spelling of the same address, e.g. '::ffff:7f00:1', is a row that was not promised)",
     "C11: kernel-side renderers of /proc/net/{tcp,tcp6,udp,udp6,unix} and of the socket:[ino] links in Spec/C11.lean (transcribed from get_tcp4_sock/get_tcp6_sock/udp4_format_sock/unix_seq_show); validated on every run against an independent printf-style Python renderer (byte equality on every generated world)",
     "C11: text-mode reading is modelled as identity on bytes (PYTHONUTF8=1 + surrogateescape, newline='\\n'); str.split() = ASCII-whitespace split; int(s,16)/int(s) on plain digit strings; listing order of /proc and /proc/<pid>/fd is an input of the model",
     "C11: OSError(errno) raised by the injected os.readlink/os.listdir is what the kernel call would raise for that errno (Python's errno -> exception-class mapping is exercised for real); a Python without IPv6 is emulated by socket.inet_ntop raising ValueError for AF_INET6 and socket.has_ipv6 = False",
@@ -50,6 +50,7 @@ ASSUMPTIONS = [
     "errnos other than ENOENT/ESRCH/EINVAL/ENAMETOOLONG/EACCES/EPERM (readlink) and ENOENT/ESRCH/EACCES/EPERM (listdir) are genuine I/O failures: the promise is silent, the model says they propagate (implementation vs model)",
 ]
 
+_REAL_NTOP = socket.inet_ntop          # captured before any injection
 NET_NAMES = ["tcp", "tcp6", "udp", "udp6", "unix"]
 KINDS = ["inet", "inet4", "inet6", "tcp", "tcp4", "tcp6", "udp", "udp4", "udp6", "unix", "all"]
 
@@ -551,7 +552,14 @@ class Impl:
             if isinstance(a, str):
                 return {"path": os.fsencode(a).hex()}
             ip, port = a
-            return {"ip": socket.inet_pton(fam, ip).hex(), "port": int(port)}
+            packed = socket.inet_pton(fam, ip)
+            d = {"ip": packed.hex(), "port": int(port)}
+            # "decoded to the textual IP": the text must be the one libc's inet_ntop gives for these bytes (what
+            # getsockname()/ss/netstat show, e.g. '::ffff:127.0.0.1' for a mapped address) — any other spelling of
+            # the same bytes makes the row differ from every promised row
+            if ip != _REAL_NTOP(fam, packed):
+                d["text"] = str(ip)
+            return d
         return {"fd": int(r.fd), "family": fam, "type": typ, "laddr": addr(r.laddr), "raddr": addr(r.raddr),
                 "status": str(r.status), "pid": getattr(r, "pid", None)}
 
